@@ -188,7 +188,8 @@ type cSeg struct {
 	ID  uint64 `json:"id"`
 	Typ string `json:"typ"` // hex
 	Ver uint32 `json:"ver"`
-	Del string `json:"del"` // hex of the bitmap's own serialisation; "" = nil
+	Del string `json:"del"` // hex of the bitmap's own serialisation; "" = nil   (correspondence)
+	Set string `json:"set"` // the deleted *set*: "" when nil or empty, else Del     (property oracle)
 }
 
 type cOne struct {
@@ -210,15 +211,18 @@ type cResult struct {
 func segsOf(vs []index.VerifCodecSeg) []cSeg {
 	out := make([]cSeg, 0, len(vs))
 	for _, v := range vs {
-		d := ""
+		d, set := "", ""
 		if v.Deleted != nil {
 			b, err := v.Deleted.ToBytes()
 			if err != nil {
 				panic(err)
 			}
 			d = hex.EncodeToString(b)
+			if !v.Deleted.IsEmpty() {
+				set = d
+			}
 		}
-		out = append(out, cSeg{ID: v.ID, Typ: hex.EncodeToString([]byte(v.Type)), Ver: v.Version, Del: d})
+		out = append(out, cSeg{ID: v.ID, Typ: hex.EncodeToString([]byte(v.Type)), Ver: v.Version, Del: d, Set: set})
 	}
 	return out
 }
@@ -273,8 +277,9 @@ func childLoad(scratch string, b []byte, mmap bool) cOne {
 		payload = b[:len(b)-index.VerifCrcWidth]
 	}
 	plugins := pluginsNamed(payload)
+	validate := index.DefaultConfig(dir).ValidateSnapshotCRC // the default of the source under test
 	return measured(func() ([]cSeg, error) {
-		vs, err := index.VerifCodecLoadSnapshot(d, 1, true, plugins)
+		vs, err := index.VerifCodecLoadSnapshot(d, 1, validate, plugins)
 		if err != nil {
 			return nil, err
 		}
@@ -1013,7 +1018,7 @@ func runCodec(o Opts) error {
 				if !okr {
 					w.OracleFail("roaring-rejects-own-bytes", "roaring cannot read back a bitmap it serialised", g.label)
 				}
-				e.Del = hex.EncodeToString(canon)
+				e.Set = hex.EncodeToString(canon)
 			}
 			items = append(items, ctx.segTerm(sg.ID, []byte(sg.Type), sg.Version, del, idx))
 			want = append(want, e)
@@ -1266,7 +1271,7 @@ func runCodec(o Opts) error {
 			return false
 		}
 		for i := range a {
-			if a[i] != b[i] {
+			if a[i].ID != b[i].ID || a[i].Typ != b[i].Typ || a[i].Ver != b[i].Ver || a[i].Set != b[i].Set {
 				return false
 			}
 		}
